@@ -5,10 +5,11 @@ CONSTANTS
   TFmts = {"default", "python", "yaml", "toml", "bad"}
   Indents = {"default", "0"}
   TxtIds = {"qstr1", "qstr2", "blit", "bboth", "bare", "baresx", "bbad", "bname", "texpo", "texpb", "advb", "advq", "advo"}
-  Argvs = {"ok", "badindent", "toomany", "unknownflag"}
+  Argvs = {"ok", "badindent", "toomany", "unknownflag", "flagafter", "dupflag", "dashdash"}
   SExts = {".txt", ".py", ".json"}
   TExts = {".txt", ".yml"}
   Dbgs = {"off", "debug"}
+  PrintCross = "full"
 INIT Init
 NEXT Next
 INVARIANT ExecOnlyFull
